@@ -207,7 +207,7 @@ def run(chk, only=None):
         cli_events = []
         t0 = time.time()
         if jobs:
-            pool = pipe_worker.Pool(sc.sub("streams"), min(cfg["workers"], max(2, NCPU - 2)), job_timeout=240)
+            pool = pipe_worker.Pool(sc.sub("streams"), pipe_tlc.max_par(min(cfg["workers"], max(2, NCPU - 2))), job_timeout=240)
             cli_thread_result = {}
 
             def do_cli():
@@ -215,7 +215,7 @@ def run(chk, only=None):
                     return
                 c = corpus or pipe_inputs.load_corpus()
                 cases = cli_cases(cfg, seed, c)
-                res = run_parallel([(lambda t=t, f=f, m=m: run_cli_case(sc, t, f, m)) for t, f, m in cases], nproc=3)
+                res = run_parallel([(lambda t=t, f=f, m=m: run_cli_case(sc, t, f, m)) for t, f, m in cases], nproc=pipe_tlc.max_par(3))
                 cli_thread_result["cases"] = cases
                 cli_thread_result["res"] = res
 
